@@ -77,9 +77,9 @@ def run_shards(modname, shards, procs=16, env=None):
     total = sum(len(ds) for ds in groups.values()) or 1
     for key, ds in groups.items():
         e = json.loads(key)
-        maxtasks = None
-        if any(isinstance(d, dict) and d.get("_fresh") for d in ds):
-            maxtasks = 1
+        # every shard runs in a brand-new interpreter: whatever process-global state a shard leaves behind cannot leak
+        # into another shard, so "re-run the shard" reproduces any history-dependent violation found in it
+        maxtasks = 1
         # processes proportional to the group's share of the shards (at least one)
         per = procs if len(groups) == 1 else max(1, round(procs * len(ds) / total))
         p = _pool(min(per, len(ds)) or 1, e, maxtasks)
